@@ -92,6 +92,7 @@ pub fn arg_class(m: &Model, op: &Op) -> String {
                 ChmodSel::Dirs(m) => if *m == 0 { "dirs0" } else { "dirs" },
                 ChmodSel::Files(m) => if *m == 0 { "files0" } else { "files" },
                 ChmodSel::Sym(_) => "sym",
+                ChmodSel::Mix { .. } => "octal+sym",
             },
             o.recursive,
             o.follow
